@@ -878,6 +878,20 @@ func runC18(r *Rng, tier string, n int) {
 		s2.Algorithm = []uint8{dns.ED25519, dns.RSASHA256, dns.ECDSAP256SHA256, 1, 3}[r.Intn(5)]
 		emitVerify(out, &s2, kp, kp.key)
 	}
+	// ARCOUNT-1 = 254, 255, 256: minimal records so that the octets stay small enough for a model case
+	for _, na := range []int{254, 255, 256} {
+		m := new(dns.Msg)
+		m.SetQuestion(".", dns.TypeA)
+		for i := 0; i < na; i++ {
+			m.Extra = append(m.Extra, &dns.RFC3597{Hdr: dns.RR_Header{Name: ".", Rrtype: 65300, Class: 1}})
+		}
+		s := newSig(keys[0], now-3000, now+3000)
+		emitSign(m, s, keys[0])
+		s = newSig(keys[0], now-3000, now+3000)
+		if out, err := doSign(s, keys[0], m); err == nil {
+			emitVerify(out, s, keys[0], keys[0].key)
+		}
+	}
 	_ = base64.StdEncoding
 	Stat(st)
 }
